@@ -557,3 +557,19 @@ def run(repo, rep, tier):  # noqa: F811 -- round-5 borrowings appended to the ru
 _ADDR5D = " Borrowed: R13.3b (no generated CodeBuilder(...) for another class carries the caller's dialect: the variant would be stored into a cache it does not have), R08.7 (default literals are rendered as text only where the text evaluates to the default)."
 EXPLANATION += _ADDR5D
 LEVEL_TEXT += _ADDR5D
+
+
+_run_before_r6b = run
+
+
+def run(repo, rep, tier):  # noqa: F811 -- round-6 remedies (core/round6.py)
+    _run_before_r6b(repo, rep, tier)
+    if getattr(rep, "borrowed", False):
+        return
+    from ..core import round6 as _r6b
+    _r6b.short_names_not_identifiers(repo, rep, "R17.13")
+
+
+_ADDR6C = ' R17.13: type_name(..., short=True) feeds messages only, never a bound name.'
+EXPLANATION += _ADDR6C
+LEVEL_TEXT += _ADDR6C
